@@ -606,13 +606,13 @@ func (s *Sim) Crash(n *Node, partialAppend, loseUnsynced bool) {
 		(n.Phase != PhaseIdle && !n.Sent) || st.UnstableLen > 0 {
 		s.Stats.inc("crash.with_pending_promises")
 	}
-	s.Mon.onCrash(n)
 	d := n.Disk
 	if loseUnsynced && d.loseUnsynced() {
 		s.Stats.inc("crash.lost_unsynced_hs")
 		n.LostCommitInc = n.Inc
 		s.tracef("    node %d lost its un-synced hard state, now %v", n.ID, d.HS)
 	}
+	s.Mon.onCrash(n)
 	s.Stats.inc("crash")
 	s.crashInternal(n)
 }
